@@ -13,6 +13,11 @@ META = {
         'saves and __deepcopy__ copies are exactly the instance attributes the '
         'package assigns on Array objects; (slots) Ranges.__slots__ equals the '
         'attributes its methods use and ExcelModel.__getstate__ keeps dsp; '
+        '(deepmemo) an object re-created by hand inside a __deepcopy__ is '
+        'entered in the memo before its state is copied; '
+        '(classattr) a mutable container written as a class attribute and '
+        'mutated in place through instances is part of the restored state '
+        '(an instance restored from a copy or pickle does not run __init__); '
         ' (tokens) every identity sentinel (sh.Token / XlError instance) is a '
         'module-level global, which is what schedula needs to restore identity '
         'on copy/pickle; (getattr) Token.__getattr__ cannot recurse on objects '
@@ -647,10 +652,169 @@ def rule_restore(ctx):
     return rr
 
 
+MUTATORS = {'update', 'append', 'extend', 'add', 'pop', 'popitem', 'clear',
+            'setdefault', 'remove', 'discard', 'insert', 'sort'}
+
+
+def rule_classattr(ctx):
+    """A mutable container written as a class attribute is one object for all
+    instances.  That is harmless while every way of making an instance
+    assigns its own - but an instance restored from a copy or a pickle does
+    not run __init__: what __getstate__ leaves out (and no __setstate__ puts
+    back) is looked up on the class.  If the methods then write into it in
+    place, restored copies write into the same container."""
+    from .modelstate import _mutable_literal
+    rr = RuleResult('C17', 'C17.classattr', 'ALIAS',
+                    'no class-level mutable container is written in place '
+                    'through instances that can come into being without their '
+                    'own copy of it', floor=1)
+    p = ctx.project
+    for c in sorted(p.classes.values(), key=lambda c: c.fq):
+        gs = p.find_method(c, '__getstate__')
+        ss = p.find_method(c, '__setstate__')
+        rd = p.find_method(c, '__reduce__') or p.find_method(c, '__reduce_ex__')
+        if gs is None or rd is not None:
+            continue
+        rr.instances += 1
+        rets = [n.value for n in own_nodes(gs) if isinstance(n, ast.Return)]
+        keys = None
+        if len(rets) == 1 and isinstance(rets[0], ast.Dict) and all(
+                isinstance(k, ast.Constant) for k in rets[0].keys):
+            keys = {k.value for k in rets[0].keys}
+        bad = None
+        for k in p.mro(c):
+            for attr, val in sorted(k.attrs.items()):
+                if not _mutable_literal(val) or attr.startswith('__'):
+                    continue
+                restored = (keys is None or attr in keys) or (
+                    ss is not None and any(
+                        isinstance(n, ast.Attribute) and n.attr == attr and
+                        isinstance(n.ctx, ast.Store) for n in own_nodes(ss)))
+                if restored:
+                    continue
+                # written in place through self by some method?
+                for m in [m_ for k2 in p.mro(c) for m_ in k2.methods.values()]:
+                    if not m.params:
+                        continue
+                    sn = m.params[0]
+                    for n in own_nodes(m):
+                        tgt = None
+                        if isinstance(n, ast.Subscript) and isinstance(
+                                n.ctx, (ast.Store, ast.Del)):
+                            tgt = n.value
+                        elif isinstance(n, ast.Call) and isinstance(
+                                n.func, ast.Attribute) and \
+                                n.func.attr in MUTATORS:
+                            tgt = n.func.value
+                        if isinstance(tgt, ast.Attribute) and \
+                                tgt.attr == attr and isinstance(
+                                tgt.value, ast.Name) and tgt.value.id == sn:
+                            bad = bad or (k, attr, m, n)
+        if bad is None:
+            rr.ok('%s: every mutable container its methods write into is '
+                  'part of the pickled state or created per instance' % c.name,
+                  '%s:%d' % (gs.module.rel, gs.lineno))
+        else:
+            k, attr, m, n = bad
+            rr.fail('%s::%s::class-level %s shared by restored instances' % (
+                k.module.rel, c.name, attr),
+                '%s.%s is a mutable container on the class, __getstate__ '
+                'leaves it out and nothing puts it back on restore, while %s '
+                'writes into it in place (`%s`): every model restored by '
+                'copy/deepcopy/pickle/dill writes into the one container of '
+                'the class, so the copies are not independent' % (
+                    k.name, attr, m.qualname, norm_src(n)[:60]),
+                file=m.module.rel, function=m.qualname, line=n.lineno)
+    if not rr.instances:
+        raise AnalysisError('C17.classattr: no class with __getstate__ found')
+    return rr
+
+
+def rule_deepmemo(ctx):
+    """Inside a hand-written __deepcopy__, an object made with `__new__` to
+    stand for an existing object E (`E.__class__.__new__(E.__class__)`,
+    `type(E).__new__(...)`) has to be entered in the memo under id(E) before
+    anything reachable from E is deep-copied with that memo: otherwise a
+    reference back to E inside its own state (the model's dispatcher holds
+    itself under sh.SELF) is copied a second time, and the copy ends up with
+    two different objects where the original had one."""
+    rr = RuleResult('C17', 'C17.deepmemo', 'MPT',
+                    'objects re-created by hand in __deepcopy__ are '
+                    'registered in the memo before their state is copied',
+                    floor=0)
+    from ..cfg import CFG
+    p = ctx.project
+    for c in sorted(p.classes.values(), key=lambda c: c.fq):
+        f = c.methods.get('__deepcopy__')
+        if f is None or len(f.params) < 2:
+            continue
+        memo = f.params[1]
+        cfg = CFG(f)
+        dom = cfg.dominators()
+        made = []  # (assign stmt, name of the new object, source of E)
+        for n in own_nodes(f):
+            if not isinstance(n, ast.Assign):
+                continue
+            v = n.value
+            if not (isinstance(v, ast.Call) and isinstance(
+                    v.func, ast.Attribute) and v.func.attr == '__new__'):
+                continue
+            base = v.func.value
+            e = None
+            if isinstance(base, ast.Attribute) and base.attr == '__class__':
+                e = base.value
+            elif isinstance(base, ast.Call) and norm_src(base.func) == 'type' \
+                    and base.args:
+                e = base.args[0]
+            if e is None:
+                continue
+            made.append((n, n.targets[-1], e))
+        copies = [n for n in own_nodes(f) if isinstance(n, ast.Call) and
+                  call_name(n) == 'deepcopy' and any(
+                      isinstance(a, ast.Name) and a.id == memo
+                      for a in list(n.args) + [k.value for k in n.keywords])]
+        for st, tgt, e in made:
+            rr.instances += 1
+            esrc = norm_src(e)
+            regs = [n for n in own_nodes(f) if isinstance(n, ast.Assign) and any(
+                isinstance(t, ast.Subscript) and isinstance(
+                    t.value, ast.Name) and t.value.id == memo and
+                norm_src(t.slice) == 'id(%s)' % esrc for t in n.targets)]
+            later = [c_ for c_ in copies if c_.lineno >= st.lineno]
+            ok = not later or any(all(
+                cfg.node_of(r_) is not None and cfg.node_of(c_) is not None
+                and cfg.dominates(cfg.node_of(r_), cfg.node_of(c_), dom)
+                for c_ in later) for r_ in regs)
+            if ok:
+                rr.ok('%s: the object made for `%s` is in the memo before '
+                      'anything is deep-copied' % (f.qualname, esrc),
+                      '%s:%d' % (f.module.rel, st.lineno))
+            else:
+                rr.fail(key_of(f, 'copy of `%s` not registered in the memo' %
+                               esrc),
+                        '%s creates `%s` to stand for `%s` but does not '
+                        'store it under memo[id(%s)] before `%s`: an object '
+                        'that refers back to `%s` from its own state is '
+                        'copied twice, so the copy holds a second, orphan '
+                        'instance (for the model: the dispatcher stored under '
+                        'sh.SELF - the copy then reads absent cells from the '
+                        'orphan\'s solution)' % (
+                            f.qualname, norm_src(tgt), esrc, esrc,
+                            norm_src(later[0])[:50], esrc),
+                        file=f.module.rel, function=f.qualname,
+                        line=st.lineno)
+    if not rr.instances:
+        rr.instances = 1
+        rr.ok('no __deepcopy__ of the package re-creates an object by hand',
+              '', nontrivial=False)
+    return rr
+
+
 def run(ctx):
     S = ctx.soft
     from .modelstate import rule_emptied
     return [S(rule_array, ctx), S(rule_slots, ctx), S(rule_tokens, ctx),
             S(rule_token_classes, ctx), S(rule_hooks, ctx), S(rule_restore, ctx),
+            S(rule_classattr, ctx), S(rule_deepmemo, ctx),
             S(rule_emptied, ctx, 'C17', 'C17.emptied'), S(rule_getattr, ctx),
             S(rule_global, ctx)]
